@@ -1,4 +1,4 @@
-import PgFdr.Json
+import PgFdr.DriverMain
 import PgFdr.Driver.C01
 import PgFdr.Driver.C02
 import PgFdr.Driver.C03
@@ -19,11 +19,7 @@ import PgFdr.Driver.C17
 import PgFdr.Driver.C18
 import PgFdr.Driver.C19
 import PgFdr.Driver.C20
-/-!
-Model driver: one JSON object per input line (`{"op": …, …}`), one JSON line back.
-Errors of the *protocol* come back as `{"proto_err": …}`; errors of the *model* (the
-model rejecting what the code rejects) are ordinary results `{"err": "<enum>"}`.
--/
+/-! Native model driver `pgfdr_model`: all protocol handlers (see `PgFdr/DriverMain.lean`). -/
 open Lean PgFdr PgFdr.Driver
 
 def allHandlers : List (String × (Json → R Json)) :=
@@ -32,28 +28,4 @@ def allHandlers : List (String × (Json → R Json)) :=
   handlersC11 ++ handlersC12 ++ handlersC13 ++ handlersC14 ++ handlersC15 ++
   handlersC16 ++ handlersC17 ++ handlersC18 ++ handlersC19 ++ handlersC20
 
-def handleLine (line : String) : String :=
-  match Json.parse line with
-  | .error e => (Json.mkObj [("proto_err", .str s!"parse: {e}")]).compress
-  | .ok j =>
-    match j.getObjVal? "op" with
-    | .ok (.str op) =>
-      if op == "ops" then (ofStrs (allHandlers.map (·.1))).compress else
-      match allHandlers.lookup op with
-      | some h => match h j with
-        | .ok r => r.compress
-        | .error e => (Json.mkObj [("proto_err", .str e)]).compress
-      | none => (Json.mkObj [("proto_err", .str s!"unknown op {op}")]).compress
-    | _ => (Json.mkObj [("proto_err", .str "no op")]).compress
-
-partial def loop (hin hout : IO.FS.Stream) : IO Unit := do
-  let line ← hin.getLine
-  if line.isEmpty then return ()
-  let t := line.trimAscii.toString
-  if t.isEmpty then loop hin hout else
-  hout.putStrLn (handleLine t)
-  hout.flush
-  loop hin hout
-
-def main : IO Unit := do
-  loop (← IO.getStdin) (← IO.getStdout)
+def main : IO Unit := runHandlers allHandlers
